@@ -29,6 +29,7 @@ type c07Req struct {
 	Limit2  int    `json:"header_received_limit"` // 0: none
 	Codec   string `json:"codec"`
 	Cuts    int    `json:"cuts"`
+	Warm    bool   `json:"preceded_by_request_with_large_limit,omitempty"` // same connection: an earlier request was granted a 10 MB limit through HeaderReceived
 }
 
 type c07Plan struct {
@@ -79,6 +80,7 @@ func scenC07(e *Env) func() {
 				r.Size = 1 << 20
 			}
 		}
+		r.Warm = p.Mode == "server" && r.Kind != "head" && e.Chance(25)
 		p.Reqs = append(p.Reqs, r)
 	}
 	if p.Mode == "client" {
@@ -281,6 +283,12 @@ func c07Server(e *Env, p *c07Plan) {
 		// write head+body in a writer task (the server may stop reading)
 		wdone := make(chan struct{})
 		all := append(append([]byte{}, head...), body...)
+		warm := []byte(nil)
+		if r.Warm {
+			// a limit granted to one request is that request's: it must not stick to the connection
+			warm = []byte(fmt.Sprintf("POST /l?id=warm-%s HTTP/1.1\r\nHost: x\r\nX-Limit: 10000000\r\nContent-Length: 5\r\n\r\nhello", r.ID))
+			all = append(append([]byte{}, warm...), all...)
+		}
 		Go("c07-writer", func() {
 			defer close(wdone)
 			off := 0
@@ -301,9 +309,12 @@ func c07Server(e *Env, p *c07Plan) {
 		})
 		ex := &Exchange{Addr: conn.LocalAddr().String()}
 		readResponses(conn, 40*time.Second, func(int, int) string { return method }, ex)
-		consumed := conn.Peer().RecvLen()
+		consumed := conn.Peer().RecvLen() - int64(len(warm))
 		conn.Close()
 		<-wdone
+		if r.Warm && len(ex.Resps) > 0 {
+			ex.Resps = ex.Resps[1:] // the warm-up request's response
+		}
 		e.Ob(1)
 		e.Nontrivial = true
 		tag := fmt.Sprintf("req %s (%s %s, %d bytes -> %d on the wire, limit %d, header-received limit %d, ReadBufferSize %d)", r.ID, r.Kind, r.Framing, r.Size, len(raw), p.L, r.Limit2, p.ReadBuf)
